@@ -1483,8 +1483,11 @@ func (c *Context) quantize(d, v *Decimal, exp int32) Condition {
 			nc := c.WithPrecision(uint32(p))
 			// The value rounded below is an intermediate one with exponent -diff, not
 			// the result. Its adjusted exponent can be -1, which must not be taken for
-			// a subnormal of the caller's context when c.MinExponent is 0.
+			// a subnormal of the caller's context when c.MinExponent is 0. Nor is its
+			// adjusted exponent, the number of digits kept less one, the result's:
+			// c.MaxExponent does not apply to it either.
 			nc.MinExponent = MinExponent
+			nc.MaxExponent = MaxExponent
 
 			// The idea here is that the resulting d.Exponent after rounding will be 0. We
 			// have a number of, say, 5 digits, but p (our precision) above is set at, say,
